@@ -35,8 +35,10 @@ type Task struct {
 	wake     chan struct{}
 	point    string
 	finished bool
-	counted  bool  // the current park has been counted by the scheduler
-	pointNth int   // how many times a task had parked at this point when this one did
+	counted  bool // the current park has been counted by the scheduler
+	pointNth int  // how many times a task had parked at this point when this one did
+	held     int  // mutexes held by the task's goroutine (fine-grained mode)
+	sched    *Sched
 	alias    *Task // ad-hoc identity of a goroutine that acts on behalf of this task (publisher seam)
 	// client tasks only
 	cur *OpRecord
@@ -155,13 +157,15 @@ func (s *Sched) yieldTask(t *Task, point string, force bool) {
 // nothing runs before the scheduler says so.
 func (s *Sched) spawn(base context.Context, gen *Generation, name string, fn func(ctx context.Context, t *Task)) *Task {
 	s.mu.Lock()
-	t := &Task{ID: s.nextID, Name: name, Gen: gen, wake: make(chan struct{})}
+	t := &Task{ID: s.nextID, Name: name, Gen: gen, wake: make(chan struct{}), sched: s}
 	s.nextID++
 	s.tasks = append(s.tasks, t)
 	s.mu.Unlock()
 	ctx := context.WithValue(base, taskCtxKey, t)
 	go func() {
+		registerGoroutine(t)
 		defer func() {
+			unregisterGoroutine()
 			s.mu.Lock()
 			t.finished = true
 			s.mu.Unlock()
@@ -177,7 +181,7 @@ func (s *Sched) spawn(base context.Context, gen *Generation, name string, fn fun
 func (s *Sched) adhocTask(gen *Generation, name string) *Task {
 	s.mu.Lock()
 	defer s.mu.Unlock()
-	t := &Task{ID: s.nextID, Name: name, Gen: gen, wake: make(chan struct{})}
+	t := &Task{ID: s.nextID, Name: name, Gen: gen, wake: make(chan struct{}), sched: s}
 	s.nextID++
 	s.tasks = append(s.tasks, t)
 	return t
